@@ -178,6 +178,18 @@ def exhaustive_small(tier):
                 i += 1
                 yield {"expr": dumps(expr_to_sx(e)),
                        "env": dumps(env_to_sx({"x": vx, "y": vy})), "variant": VARIANTS[i % 4]}
+    # variables may carry ANY name — also names the entry points use for their own locals / for
+    # parameters of functions they call (everything except the two parameters the keyword entry
+    # point declares itself: `expression`, `mapper_cls`); bound, unbound and through every variant
+    names = ["context", "self", "expr", "env", "kw", "kwargs", "args", "cls", "mapper", "result",
+             "kw_context", "cache", "_cache", "rec", "enclosing_prec"]
+    for n in names:
+        for variant in VARIANTS:
+            e = p.Sum((p.Product((p.Variable(n), 3)), x))
+            yield {"expr": dumps(expr_to_sx(e)), "env": dumps(env_to_sx({n: 5, "x": -2})),
+                   "variant": variant}
+            yield {"expr": dumps(expr_to_sx(e)), "env": dumps(env_to_sx({"x": -2})),
+                   "variant": variant}
 
 
 class HistStream(Stream):
